@@ -233,6 +233,45 @@ impl Ctx {
     }
 }
 
+/// Reference for the routing-work requirement, independent of the implementation's float
+/// pipeline: the parent's burn fee divided by the elapsed time, rounded to the nearest nolan.
+/// `None` where the float pipeline may legitimately differ from exact arithmetic (large burn
+/// fees, fraction within 1/1024 of a tie) or where `2 * heartbeat` overflows.
+fn ref_work(bf: u64, ts: u64, prev: u64, hb: u64) -> Option<u64> {
+    if hb >= (1 << 62) {
+        return None;
+    }
+    if ts <= prev {
+        return Some(SENTINEL);
+    }
+    let el = ts - prev;
+    if el >= 2 * hb {
+        return Some(0);
+    }
+    if bf >= (1 << 40) {
+        return None;
+    }
+    let (bf, el) = (bf as u128, el as u128);
+    let rem = bf % el;
+    let dist = if 2 * rem > el { 2 * rem - el } else { el - 2 * rem }; // |frac - 1/2| * 2 * el
+    if dist * 512 <= el {
+        return None;
+    }
+    Some(((2 * bf + el) / (2 * el)) as u64)
+}
+
+/// vacuity guard: a family of scenarios must have produced at least `min` cases with this outcome
+fn require_min(ctx: &mut Ctx, case: usize, dim: &str, key: &str, min: u64) {
+    let have = ctx.summary.distribution.get(dim).and_then(|m| m.get(key)).copied().unwrap_or(0);
+    if have < min {
+        ctx.summary.oracle_failure(
+            case,
+            &format!("vacuity guard: only {} scenario(s) with {} = {} (at least {} expected on an honest tree)", have, dim, key, min),
+            &format!("{{\"vacuity\":{},\"key\":{}}}", jstr(dim), jstr(key)),
+        );
+    }
+}
+
 // ------------------------------------------------------------------ part 1: burnfee.rs
 
 fn real_work(bf: u64, ts: u64, prev: u64, hb: u64) -> Result<u64, u64> {
@@ -410,6 +449,20 @@ fn part1(ctx: &mut Ctx, rng: &mut Rng) {
                 _ => ts.saturating_add(rng.range(0, hb.saturating_mul(3).clamp(1, 1 << 40))),
             };
             oracle_antitone(ctx, case, bf, prev, ts, later, hb, &desc);
+        }
+        // (d) the requirement is the burn fee divided by the elapsed time, rounded to the nearest nolan
+        if let (Some(r), Ok(wv)) = (ref_work(bf, ts, prev, hb), w) {
+            if r != wv {
+                ctx.summary.oracle_failure(
+                    case,
+                    &format!(
+                        "routing work requirement {} differs from burn fee / elapsed rounded to the nearest nolan = {} (bf={}, elapsed={}, exact quotient {}+{}/{})",
+                        wv, r, bf, ts.wrapping_sub(prev), bf / ts.wrapping_sub(prev).max(1), bf % ts.wrapping_sub(prev).max(1), ts.wrapping_sub(prev)
+                    ),
+                    &desc,
+                );
+            }
+            ctx.summary.count("burnfee.reference_checked", if ts > prev && ts - prev < 2 * hb { "float-path" } else { "early-return" });
         }
         // (c) a misordered / equal timestamp must be "impossible": at least the sentinel
         if ts <= prev && w != Ok(SENTINEL) {
@@ -873,6 +926,181 @@ fn part2(ctx: &mut Ctx, rng: &mut Rng) {
     ctx.files.extend(files);
 }
 
+// ------------------------------------------------------------------ part 2b: ATR transaction as lottery winner
+
+/// Block::find_winning_router on hand-made blocks that hold an ATR transaction whose `data` is a
+/// serialised transaction: the winner must be drawn from the INNER transaction.
+fn part2b(ctx: &mut Ctx, rng: &mut Rng) {
+    let thorough = ctx.args.tier == "thorough";
+    let keys = Keys::new(6);
+    let n = if thorough { 1200 } else { 160 };
+    let offset = ctx.next_case();
+    let mut cases: Vec<String> = vec![];
+    for i in 0..n {
+        let case = offset + i;
+        // inner transaction (what the ATR transaction rebroadcasts)
+        let inner_kind = i % 5;
+        let inner_sender = 1 + rng.below(3) as usize; // keys 2..4
+        let mut inner = if inner_kind == 3 {
+            let mut t = Transaction::default();
+            t.timestamp = 7;
+            t.sign(&keys.v[inner_sender].1);
+            t
+        } else {
+            let a = rng.range(1000, 1_000_000);
+            raw_tx(&keys, inner_sender, &[a], &[a - rng.range(1, 999)], 500 + i as u64)
+        };
+        if inner_kind == 1 || inner_kind == 2 {
+            let hops = rng.range(1, 3) as usize;
+            build_path(&mut inner, &keys, rng, inner_sender, 0, PathKind::Valid, hops);
+        }
+        let data: Vec<u8> = match inner_kind {
+            4 => {
+                // not a transaction at all
+                let mut v = inner.serialize_for_net();
+                v.truncate(rng.range(0, 40) as usize);
+                v
+            }
+            _ => inner.serialize_for_net(),
+        };
+        // the ATR transaction itself: owned by key 6, which is on no path of the inner transaction
+        let mut atr = Transaction::default();
+        atr.transaction_type = TransactionType::ATR;
+        atr.timestamp = 9;
+        let a = rng.range(10_000, 1_000_000);
+        let fb = rng.range(1, 5000);
+        atr.add_from_slip(mk_slip(&keys.v[5].0, a));
+        let mut o = mk_slip(&keys.v[5].0, a - fb);
+        o.slip_type = SlipType::ATR;
+        atr.add_to_slip(o);
+        atr.data = data.clone();
+        // a normal routed fee transaction next to it
+        let fa_in = rng.range(1000, 1_000_000);
+        let mut normal = raw_tx(&keys, 1, &[fa_in], &[fa_in - rng.range(1, 999)], 900 + i as u64);
+        let nh = rng.below(3) as usize;
+        build_path(&mut normal, &keys, rng, 1, 0, if nh == 0 { PathKind::None } else { PathKind::Valid }, nh);
+        let mut block = Block::new();
+        block.id = 5;
+        block.creator = keys.v[0].0;
+        block.timestamp = 1000;
+        match i % 3 {
+            0 => {
+                block.transactions.push(normal);
+                block.transactions.push(atr);
+            }
+            1 => {
+                block.transactions.push(atr);
+                block.transactions.push(normal);
+            }
+            _ => block.transactions.push(atr),
+        }
+        if catch_unwind(AssertUnwindSafe(|| block.generate())).map(|r| r.is_err()).unwrap_or(true) {
+            ctx.summary.oracle_failure(case, "vacuity guard: Block::generate failed on a hand-made block with an ATR transaction", "{\"part\":\"atr\"}");
+            cases.push("((0, []), [])".to_string());
+            ctx.summary.case_descs.push("{\"part\":\"atr\",\"setup\":\"failed\"}".to_string());
+            continue;
+        }
+        block.total_fees = block.transactions.iter().map(|t| t.total_fees).sum();
+        // the inner transaction as the implementation will see it
+        let inner_seen: Option<Transaction> = catch_unwind(AssertUnwindSafe(|| Transaction::deserialize_from_net(&data))).ok().and_then(|r| r.ok());
+        let mut elig: BTreeSet<u64> = BTreeSet::new();
+        elig.insert(0);
+        for t in &block.transactions {
+            let subject: Option<&Transaction> = if t.transaction_type == TransactionType::ATR { inner_seen.as_ref() } else { Some(t) };
+            if let Some(t) = subject {
+                if t.path.is_empty() {
+                    if let Some(sl) = t.from.first() {
+                        elig.insert(keys.id(&sl.public_key));
+                    }
+                }
+                for h in &t.path {
+                    elig.insert(keys.id(&h.to));
+                }
+            }
+        }
+        let mut xs: Vec<u128> = vec![0, 1];
+        for t in &block.transactions {
+            let c = t.cumulative_fees as u128;
+            xs.extend([c.saturating_sub(1), c, c + 1]);
+        }
+        let f = block.total_fees as u128;
+        xs.extend([f.saturating_sub(1), f, f + 1]);
+        xs.sort();
+        xs.dedup();
+        let mut hs: Vec<SaitoHash> = xs.iter().map(|x| be32(*x)).collect();
+        hs.push(hash(&rng.next().to_be_bytes()));
+        let desc = format!(
+            "{{\"part\":\"atr\",\"inner\":{},\"layout\":{},\"block_total_fees\":{},\"tx_types_cumulative_fees\":{:?},\"inner_deserialises\":{}}}",
+            jstr(["path-less", "routed", "routed", "no-inputs", "truncated-bytes"][inner_kind]),
+            i % 3,
+            block.total_fees,
+            block.transactions.iter().map(|t| vec![t.transaction_type as u64, t.cumulative_fees]).collect::<Vec<_>>(),
+            inner_seen.is_some()
+        );
+        let mut sweep: Vec<String> = vec![];
+        let mut atr_won = false;
+        for h in hs {
+            let r = catch_unwind(AssertUnwindSafe(|| block.find_winning_router(h))).map(|pk| keys.id(&pk)).map_err(|e| panic_site(&panic_msg(e)));
+            // which transaction holds the winning nolan
+            let x = u128::from_be_bytes(h[16..32].try_into().unwrap());
+            if h[0..16].iter().all(|b| *b == 0) && block.total_fees > 0 {
+                let w = ((x % block.total_fees as u128) as u64).max(1);
+                if let Some(t) = block.transactions.iter().find(|t| t.cumulative_fees >= w) {
+                    if t.transaction_type == TransactionType::ATR {
+                        atr_won = true;
+                    }
+                }
+            }
+            match r {
+                Ok(k) if !elig.contains(&k) => ctx.summary.oracle_failure(
+                    case,
+                    &format!("find_winning_router({}) returns key#{}: not a hop target / path-less sender of a transaction of the block (for the ATR transaction: of the transaction it carries)", hex::encode(h), k),
+                    &desc,
+                ),
+                Err(site) if inner_seen.is_some() => {
+                    ctx.summary.oracle_failure(case, &format!("find_winning_router({}) panicked (site {}) although the ATR payload is a valid transaction", hex::encode(h), site), &desc)
+                }
+                _ => {}
+            }
+            sweep.push(format!("({}, {}, {})", u256_dec(&h), u256_dec(&hash(h.as_ref())), obs(r)));
+        }
+        ctx.summary.count("atr.inner", ["path-less", "routed", "routed", "no-inputs", "truncated-bytes"][inner_kind]);
+        ctx.summary.count("atr.winner_is_atr_tx", if atr_won { "yes" } else { "no" });
+        ctx.nontrivial(format!("atr/{}", desc));
+        let txs: Vec<String> = block
+            .transactions
+            .iter()
+            .map(|t| {
+                let is_atr = t.transaction_type == TransactionType::ATR;
+                let inner_s = match (&inner_seen, is_atr) {
+                    (Some(it), true) => format!("Some {}", abs_tx(it, it.total_fees, &keys)),
+                    _ => "None".to_string(),
+                };
+                format!("({}, {}, {}, {})", t.cumulative_fees, gal::boolean(is_atr), inner_s, abs_tx(t, t.total_fees, &keys))
+            })
+            .collect();
+        cases.push(format!("(({}, {}), {})", block.total_fees, gal::list(&txs), gal::list(&sweep)));
+        ctx.summary.case_descs.push(desc);
+    }
+    require_min(ctx, offset, "atr.winner_is_atr_tx", "yes", 100);
+    let header = format!(
+        "From Saito Require Import Base BurnFee Routing.\nDefinition DBG : bool := {}.\n{}",
+        gal::boolean(ctx.dbg),
+        r#"Definition T := (option N * N * list (N * N * bool))%type.
+Definition mk_tx (t : T) : rtx :=
+  let '(f0, fees, p) := t in mkRtx f0 fees (map (fun h => mkHop (fst (fst h)) (snd (fst h)) (snd h)) p).
+Definition mk_btx4 (c : N * bool * option T * T) : btx :=
+  let '(cum, atr, inner, t) := c in mkBtx cum atr (option_map mk_tx inner) (mk_tx t).
+Definition check (c : (N * list (N * bool * option T * T)) * list (N * N * N)) : bool :=
+  let '((fees, txs), sweep) := c in
+  forallb (fun s => let '(x, x2, e) := s in
+                    obs_res (find_winning_router DBG fees (map mk_btx4 txs) x x2) =? e) sweep."#
+    );
+    let dir = format!("{}/cases", ctx.args.out);
+    let files = write_shards_off(&dir, "atr", &header, "(N * list (N * bool * option T * T)) * list (N * N * N)", &cases, 8, offset);
+    ctx.files.extend(files);
+}
+
 // ------------------------------------------------------------------ part 3: real chains
 
 /// like world::make_block, but the golden ticket may be solved by another key
@@ -881,7 +1109,7 @@ async fn make_block_gt(
     parent_hash: SaitoHash,
     timestamp: u64,
     txs: Vec<Transaction>,
-    gt: Option<(&SaitoPublicKey, &SaitoPrivateKey, u64)>,
+    gt: Option<(&SaitoPublicKey, &SaitoPublicKey, &SaitoPrivateKey, u64)>, // (ticket key, relay key, relay secret, seed)
 ) -> Result<Block, String> {
     let mut map = fixed_tx_map();
     for mut tx in txs {
@@ -889,9 +1117,11 @@ async fn make_block_gt(
         map.insert(tx.signature, tx);
     }
     let mut gt_opt = None;
-    if let Some((pk, sk, seed)) = gt {
+    if let Some((pk, relay_pk, relay_sk, seed)) = gt {
         let parent = node.blockchain.get_block(&parent_hash).ok_or_else(|| "parent not found".to_string())?;
-        let mut gttx = golden_ticket_tx(parent_hash, parent.difficulty, pk, sk, seed).await;
+        // the solution names `pk`; the transaction that carries it is signed (and sent) by the relay
+        let ticket = mine_golden_ticket(parent_hash, parent.difficulty, *pk, seed);
+        let mut gttx = Wallet::create_golden_ticket_transaction(ticket, relay_pk, relay_sk).await;
         gttx.generate(&node.pk, 0, 0);
         gt_opt = Some(gttx);
     }
@@ -983,6 +1213,7 @@ struct Scenario {
     variant: i64,       // work - needed: -1 short, 0 exact, +k over
     path_defect: u8,    // 0 none, 1 forged hop signature, 2 self-hop, 3 misdirected, 4 broken
     with_gt: bool,
+    pre_dt: Option<u64>, // an extra block between block 2 and the candidate (varies the parent's burn fee)
 }
 
 async fn run_gate_scenario(ctx: &mut Ctx, rng: &mut Rng, sc: &Scenario, keys: &Keys, cases: &mut Vec<String>, case: usize) {
@@ -1000,13 +1231,42 @@ async fn run_gate_scenario(ctx: &mut Ctx, rng: &mut Rng, sc: &Scenario, keys: &K
     let b2 = make_block(&node, g.hash, ts2, vec![tx2], false, 0).await.unwrap();
     let r2 = node.add_block(b2.clone()).await;
     if r0 != AddClass::OnChain || r2 != AddClass::OnChain {
-        ctx.summary.notes.push(format!("gate scenario setup failed: genesis {:?} block2 {:?}", r0, r2));
+        ctx.summary.oracle_failure(
+            case,
+            &format!("vacuity guard: gate scenario could not be set up (genesis {:?}, block 2 {:?}); the honest setup blocks must be accepted", r0, r2),
+            "{\"part\":\"gate\",\"setup\":\"failed\"}",
+        );
         cases.push("((0, [], 0, 0, 0, 1), (0, false, false))".to_string());
         ctx.summary.case_descs.push("{\"part\":\"gate\",\"setup\":\"failed\"}".to_string());
         return;
     }
+    // optional extra block: the candidate's parent then has a burn fee other than 50_000_000
+    let (b2, ts2) = match sc.pre_dt {
+        None => (b2, ts2),
+        Some(pd) => {
+            let tsx = ts2 + pd;
+            let need_x = BurnFee::return_routing_work_needed_to_produce_block_in_nolan(b2.burnfee, tsx, ts2, sc.hb);
+            let txx = routed_tx(keys, &mut purse, sender, need_x + 1000 + rng.below(1000), &[creator], tsx);
+            let bx = make_block(&node, b2.hash, tsx, vec![txx], false, 0).await.unwrap();
+            let rx = node.add_block(bx.clone()).await;
+            if rx != AddClass::OnChain {
+                ctx.summary.oracle_failure(
+                    case,
+                    &format!("vacuity guard: gate scenario could not be set up (block 3 with ample work {:?})", rx),
+                    "{\"part\":\"gate\",\"setup\":\"failed\"}",
+                );
+                cases.push("((0, [], 0, 0, 0, 1), (0, false, false))".to_string());
+                ctx.summary.case_descs.push("{\"part\":\"gate\",\"setup\":\"failed\"}".to_string());
+                return;
+            }
+            (bx, tsx)
+        }
+    };
     let ts3 = if sc.misordered { ts2 - 1 - rng.below(100) } else { ts2 + sc.dt };
-    let needed = BurnFee::return_routing_work_needed_to_produce_block_in_nolan(b2.burnfee, ts3, ts2, sc.hb);
+    let needed_impl = BurnFee::return_routing_work_needed_to_produce_block_in_nolan(b2.burnfee, ts3, ts2, sc.hb);
+    // the requirement the candidate is measured against: exact arithmetic where it is unambiguous
+    let needed_ref = ref_work(b2.burnfee, ts3, ts2, sc.hb);
+    let needed = needed_ref.unwrap_or(needed_impl);
     // target total work
     let target: u64 = if needed == SENTINEL {
         // cannot be met with real money: offer a sizeable amount of work anyway
@@ -1058,11 +1318,12 @@ async fn run_gate_scenario(ctx: &mut Ctx, rng: &mut Rng, sc: &Scenario, keys: &K
         }
         txs.push(tx);
     }
-    let gt = if sc.with_gt { Some((&keys.v[4].0, &keys.v[4].1, case as u64)) } else { None };
+    let relay = if case % 2 == 0 { 4 } else { 3 };
+    let gt = if sc.with_gt { Some((&keys.v[4].0, &keys.v[relay].0, &keys.v[relay].1, case as u64)) } else { None };
     let b3 = match make_block_gt(&node, b2.hash, ts3, txs, gt).await {
         Ok(b) => b,
         Err(e) => {
-            ctx.summary.notes.push(format!("gate scenario: candidate not built: {}", e));
+            ctx.summary.oracle_failure(case, &format!("vacuity guard: gate candidate not built: {}", e), "{\"part\":\"gate\",\"setup\":\"candidate-failed\"}");
             cases.push("((0, [], 0, 0, 0, 1), (0, false, false))".to_string());
             ctx.summary.case_descs.push("{\"part\":\"gate\",\"setup\":\"candidate-failed\"}".to_string());
             return;
@@ -1083,11 +1344,24 @@ async fn run_gate_scenario(ctx: &mut Ctx, rng: &mut Rng, sc: &Scenario, keys: &K
         .map(|(t, _)| t.total_work_for_me)
         .sum();
     let desc = format!(
-        "{{\"part\":\"gate\",\"heartbeat\":{},\"parent_burnfee\":{},\"parent_ts\":{},\"candidate_ts\":{},\"work_needed\":{},\"total_work\":{},\"hops\":{},\"work_txs\":{},\"variant\":{},\"path_defect\":{},\"golden_ticket\":{},\"add_block\":{},\"work_from_invalid_paths\":{}}}",
-        sc.hb, b2.burnfee, ts2, ts3, needed, total_work, sc.hops, n_tx, sc.variant, sc.path_defect, sc.with_gt,
+        "{{\"part\":\"gate\",\"heartbeat\":{},\"parent_burnfee\":{},\"parent_ts\":{},\"candidate_ts\":{},\"work_needed\":{},\"work_needed_by_implementation\":{},\"total_work\":{},\"hops\":{},\"work_txs\":{},\"variant\":{},\"path_defect\":{},\"golden_ticket\":{},\"add_block\":{},\"work_from_invalid_paths\":{}}}",
+        sc.hb, b2.burnfee, ts2, ts3, needed, needed_impl, total_work, sc.hops, n_tx, sc.variant, sc.path_defect, sc.with_gt,
         jstr(&format!("{:?}", class)), work_from_invalid
     );
     // ---- direct oracle
+    if let Some(r) = needed_ref {
+        if r != needed_impl {
+            ctx.summary.oracle_failure(
+                case,
+                &format!("the implementation asks for {} but burn fee {} / elapsed {} rounded to the nearest nolan is {}", needed_impl, b2.burnfee, ts3 as i128 - ts2 as i128, r),
+                &desc,
+            );
+        }
+        ctx.summary.count("gate.requirement_fraction", &{
+            let el = (ts3 as i128 - ts2 as i128).max(1) as u64;
+            if ts3 <= ts2 || el >= 2 * sc.hb { "n/a".to_string() } else if 2 * (b2.burnfee % el) >= el { ">=.5".to_string() } else { "<.5".to_string() }
+        });
+    }
     if accepted && total_work < needed {
         ctx.summary.oracle_failure(
             case,
@@ -1139,6 +1413,143 @@ async fn run_gate_scenario(ctx: &mut Ctx, rng: &mut Rng, sc: &Scenario, keys: &K
     ctx.summary.case_descs.push(desc);
 }
 
+
+/// re-seals a block after its transaction list was edited: merkle root, pre-hash, creator signature, hash
+fn reseal(block: &mut Block, sk: &SaitoPrivateKey) {
+    block.merkle_root = block.generate_merkle_root(false, false);
+    let _ = block.generate();
+    block.sign(sk);
+    let _ = block.generate();
+}
+
+/// a fresh node holding `chain` (all blocks were accepted by another node before)
+async fn replay_node(params: &Params, chain: &[Block]) -> Option<Node> {
+    let mut node = Node::new(params, 1);
+    for b in chain {
+        if node.add_block(b.clone()).await != AddClass::OnChain {
+            return None;
+        }
+    }
+    Some(node)
+}
+
+const FEE_TAMPER: [&str; 7] = [
+    "payee-changed-to-ineligible-key",
+    "amount-plus-one",
+    "extra-output",
+    "fee-transaction-duplicated",
+    "fee-transaction-removed",
+    "payee-swapped-among-eligible",
+    "miner-output-to-gt-transaction-sender",
+];
+
+/// clone of an honest golden-ticket block with its fee transaction tampered and everything re-signed
+fn tampered_clone(b: &Block, kind: usize, keys: &Keys, sk: &SaitoPrivateKey, gt_sender: &SaitoPublicKey) -> Option<Block> {
+    let mut c = b.clone();
+    let fi = c.transactions.iter().position(|t| t.transaction_type == TransactionType::Fee)?;
+    let outsider = keys.v[7].0;
+    match kind {
+        0 => {
+            let t = &mut c.transactions[fi];
+            t.to.first_mut()?.public_key = outsider;
+            t.sign(sk);
+        }
+        1 => {
+            let t = &mut c.transactions[fi];
+            t.to.first_mut()?.amount += 1;
+            t.sign(sk);
+        }
+        2 => {
+            let t = &mut c.transactions[fi];
+            let mut o = Slip::default();
+            o.public_key = outsider;
+            o.amount = 1;
+            o.slip_type = SlipType::RouterOutput;
+            t.add_to_slip(o);
+            t.sign(sk);
+        }
+        3 => {
+            let t = c.transactions[fi].clone();
+            c.transactions.push(t);
+        }
+        4 => {
+            c.transactions.remove(fi);
+        }
+        5 => {
+            let t = &mut c.transactions[fi];
+            if t.to.len() < 2 || t.to[0].public_key == t.to[1].public_key {
+                return None;
+            }
+            let k0 = t.to[0].public_key;
+            t.to[0].public_key = t.to[1].public_key;
+            t.to[1].public_key = k0;
+            t.sign(sk);
+        }
+        _ => {
+            let t = &mut c.transactions[fi];
+            let m = t.to.iter_mut().find(|s| s.slip_type == SlipType::MinerOutput)?;
+            if &m.public_key == gt_sender {
+                return None;
+            }
+            m.public_key = *gt_sender;
+            t.sign(sk);
+        }
+    }
+    reseal(&mut c, sk);
+    Some(c)
+}
+
+fn fee_outputs(b: &Block, keys: &Keys) -> (Vec<(u64, u64, u64)>, usize) {
+    let fee_txs: Vec<&Transaction> = b.transactions.iter().filter(|t| t.transaction_type == TransactionType::Fee).collect();
+    let outs = fee_txs
+        .iter()
+        .flat_map(|t| t.to.iter())
+        .map(|s| {
+            (
+                keys.id(&s.public_key),
+                s.amount,
+                match s.slip_type {
+                    SlipType::MinerOutput => 1,
+                    SlipType::RouterOutput => 2,
+                    _ => 9,
+                },
+            )
+        })
+        .collect();
+    (outs, fee_txs.len())
+}
+
+/// per-block bookkeeping the lottery and the golden-ticket rule depend on
+fn oracle_block_meta(ctx: &mut Ctx, case: usize, b: &Block, parent: &Block, desc: &str) {
+    let mut cum: u128 = 0;
+    for (i, t) in b.transactions.iter().enumerate() {
+        cum += fees_of(t) as u128;
+        if t.cumulative_fees as u128 != cum {
+            ctx.summary.oracle_failure(
+                case,
+                &format!("block {}: cumulative_fees of transaction {} is {} but the fees of transactions 0..={} add up to {}", b.id, i, t.cumulative_fees, i, cum),
+                desc,
+            );
+            break;
+        }
+    }
+    let mut d = parent.difficulty;
+    if parent.has_golden_ticket {
+        if b.has_golden_ticket {
+            d += 1;
+        }
+    } else if !b.has_golden_ticket && d > 0 {
+        d -= 1;
+    }
+    if b.difficulty != d {
+        ctx.summary.oracle_failure(
+            case,
+            &format!("accepted block {} has difficulty {} but parent difficulty {} / golden tickets (parent {}, block {}) give {}", b.id, b.difficulty, parent.difficulty, parent.has_golden_ticket, b.has_golden_ticket, d),
+            desc,
+        );
+    }
+}
+
 /// chains g, b2, b3, b4(gt) [, b5(gt)] with fees and varied paths; checks every fee transaction
 async fn run_payout_scenario(ctx: &mut Ctx, rng: &mut Rng, keys: &Keys, cases: &mut Vec<String>, first_case: usize) -> usize {
     let hb = 100u64;
@@ -1160,6 +1571,9 @@ async fn run_payout_scenario(ctx: &mut Ctx, rng: &mut Rng, keys: &Keys, cases: &
         Purse { slips: (0..n_iss).filter(|i| i % 2 == 1).map(|i| outputs_of(&g, i)[0].clone()).collect(), next: 0 },
     ];
     let mut chain: Vec<Block> = vec![g.clone()];
+    // "forced" flavour: two ticket-less blocks with multi-hop fee transactions, the second collecting
+    // about four times the first, then a golden ticket: the loop-back branch pays router2 uncapped
+    let forced = gp == 10 && rng.chance(1, 2);
     let n_blocks = rng.range(3, 6) as usize;
     let mut produced = 0usize;
     let big = rng.range(100_000, 5_000_000);
@@ -1168,20 +1582,24 @@ async fn run_payout_scenario(ctx: &mut Ctx, rng: &mut Rng, keys: &Keys, cases: &
         let ts = parent.timestamp + 2 * hb + rng.range(0, 50);
         // transactions of this block: 0..4 with varied fees and paths
         let mut txs = vec![];
-        let ntx = if bi == 0 { rng.range(1, 3) } else { rng.range(0, 4) } as usize;
+        let ntx = if forced && bi < 2 { rng.range(2, 3) } else if bi == 0 { rng.range(1, 3) } else { rng.range(0, 4) } as usize;
         for _ in 0..ntx {
             let who = rng.below(2) as usize; // purse / sender key index 1 or 2
             if purses[who].next + 1 >= purses[who].slips.len() {
                 continue;
             }
             let sender = 1 + who;
-            let fee = match rng.below(5) {
-                0 => 0,
-                1 => rng.range(1, 20),
-                2 => big,
-                _ => rng.range(big / 10, big),
+            let fee = if forced && bi < 2 {
+                (if bi == 0 { big } else { 4 * big }) + rng.below(1000)
+            } else {
+                match rng.below(5) {
+                    0 => 0,
+                    1 => rng.range(1, 20),
+                    2 => big,
+                    _ => rng.range(big / 10, big),
+                }
             };
-            let hops = rng.below(4) as usize;
+            let hops = if forced && bi < 2 { rng.range(2, 3) as usize } else { rng.below(4) as usize };
             let mut route: Vec<usize> = vec![];
             let mut last = sender;
             for k in 0..hops {
@@ -1196,13 +1614,15 @@ async fn run_payout_scenario(ctx: &mut Ctx, rng: &mut Rng, keys: &Keys, cases: &
             txs.push(routed_tx(keys, &mut purses[who], sender, fee, &route, ts + k));
         }
         let no_gt_run = chain.iter().rev().take_while(|x| !x.has_golden_ticket).count();
-        let with_gt = bi >= 1 && rng.chance(2, 3) || bi + 1 == n_blocks || (bi >= 1 && no_gt_run >= 2);
+        let with_gt = if forced && bi < 3 { bi == 2 } else { bi >= 1 && rng.chance(2, 3) || bi + 1 == n_blocks || (bi >= 1 && no_gt_run >= 2) };
         if txs.is_empty() && !with_gt {
             let who = 0;
             txs.push(routed_tx(keys, &mut purses[who], 1, 5, &[creator], ts));
         }
         let miner = *rng.pick(&[0usize, 4, 5]);
-        let gt = if with_gt { Some((&keys.v[miner].0, &keys.v[miner].1, first_case as u64 * 16 + bi as u64)) } else { None };
+        // the golden-ticket transaction is sent by a relay that need not be the solver
+        let relay = *rng.pick(&[miner, miner, 0, 3, 6]);
+        let gt = if with_gt { Some((&keys.v[miner].0, &keys.v[relay].0, &keys.v[relay].1, first_case as u64 * 16 + bi as u64)) } else { None };
         let b = match make_block_gt(&node, parent.hash, ts, txs, gt).await {
             Ok(b) => b,
             Err(e) => {
@@ -1217,7 +1637,36 @@ async fn run_payout_scenario(ctx: &mut Ctx, rng: &mut Rng, keys: &Keys, cases: &
             break;
         }
         chain.push(b.clone());
+        oracle_block_meta(ctx, first_case + produced, &b, &parent, "{\"part\":\"payout\",\"check\":\"block bookkeeping\"}");
         if !b.has_golden_ticket {
+            // a ticket-less block must not carry a fee transaction: offer a re-signed clone with a stray one
+            if rng.chance(1, 2) {
+                let mut c = b.clone();
+                let mut t = Transaction::default();
+                t.transaction_type = TransactionType::Fee;
+                t.timestamp = c.timestamp;
+                let mut o = Slip::default();
+                o.public_key = keys.v[7].0;
+                o.amount = 1000;
+                o.slip_type = SlipType::RouterOutput;
+                t.add_to_slip(o);
+                t.sign(&node.sk);
+                c.transactions.push(t);
+                reseal(&mut c, &node.sk);
+                if let Some(mut n2) = replay_node(&params, &chain[..chain.len() - 1]).await {
+                    let cl = n2.add_block(c.clone()).await;
+                    ctx.summary.count("payout.stray_fee_tx", &format!("{:?}", cl));
+                    if cl == AddClass::OnChain {
+                        ctx.summary.oracle_failure(
+                            first_case + produced,
+                            &format!("block {} without a golden ticket but with a fee transaction paying 1000 to key#8 was accepted", c.id),
+                            "{\"part\":\"payout\",\"check\":\"stray fee transaction in a ticket-less block\"}",
+                        );
+                    }
+                } else {
+                    ctx.summary.oracle_failure(first_case + produced, "vacuity guard: an accepted chain could not be replayed on a fresh node", "{\"part\":\"payout\"}");
+                }
+            }
             continue;
         }
         // ---------------- an accepted block with a golden ticket: inspect its fee transaction
@@ -1227,22 +1676,8 @@ async fn run_payout_scenario(ctx: &mut Ctx, rng: &mut Rng, keys: &Keys, cases: &
         let _ = GoldenTicket::deserialize_from_net(&gt_tx.data);
         let gt_random: SaitoHash = gt_tx.data[32..64].try_into().unwrap();
         let gt_public_key: SaitoPublicKey = gt_tx.data[64..97].try_into().unwrap();
-        let fee_txs: Vec<&Transaction> = b.transactions.iter().filter(|t| t.transaction_type == TransactionType::Fee).collect();
-        let outputs: Vec<(u64, u64, u64)> = fee_txs
-            .iter()
-            .flat_map(|t| t.to.iter())
-            .map(|s| {
-                (
-                    keys.id(&s.public_key),
-                    s.amount,
-                    match s.slip_type {
-                        SlipType::MinerOutput => 1,
-                        SlipType::RouterOutput => 2,
-                        _ => 9,
-                    },
-                )
-            })
-            .collect();
+        let (outputs, n_fee_txs) = fee_outputs(&b, keys);
+        let gt_sender: SaitoPublicKey = gt_tx.from.first().map(|x| x.public_key).unwrap_or([0; 33]);
         let prev = &chain[chain.len() - 2];
         let pp = if chain.len() >= 3 { Some(&chain[chain.len() - 3]) } else { None };
         // lottery numbers exactly as generate_consensus_values derives them
@@ -1266,15 +1701,15 @@ async fn run_payout_scenario(ctx: &mut Ctx, rng: &mut Rng, keys: &Keys, cases: &
         };
         let total_out: u128 = outputs.iter().map(|o| o.1 as u128).sum();
         let desc = format!(
-            "{{\"part\":\"payout\",\"block_id\":{},\"genesis_period\":{},\"gt_solver_key\":{},\"prev_total_fees\":{},\"prev_avg_total_fees\":{},\"prev_has_gt\":{},\"prevprev_total_fees\":{},\"paid_blocks\":{},\"fee_tx_outputs_key_amount_kind\":{:?},\"eligible_keys\":{:?},\"bound\":{}}}",
-            b.id, gp, keys.id(&gt_public_key), prev.total_fees, prev.avg_total_fees, prev.has_golden_ticket,
+            "{{\"part\":\"payout\",\"block_id\":{},\"genesis_period\":{},\"gt_solver_key\":{},\"gt_transaction_sender_key\":{},\"prev_total_fees\":{},\"prev_avg_total_fees\":{},\"prev_has_gt\":{},\"prevprev_total_fees\":{},\"paid_blocks\":{},\"fee_tx_outputs_key_amount_kind\":{:?},\"eligible_keys\":{:?},\"bound\":{}}}",
+            b.id, gp, keys.id(&gt_public_key), keys.id(&gt_sender), prev.total_fees, prev.avg_total_fees, prev.has_golden_ticket,
             pp.map(|x| x.total_fees).unwrap_or(0), paid_blocks,
             outputs.iter().map(|o| vec![o.0, o.1, o.2]).collect::<Vec<_>>(),
             eligible.iter().collect::<Vec<_>>(), bound
         );
         oracle_ticket(ctx, case, &b, prev, keys, &desc);
-        if fee_txs.len() != 1 {
-            ctx.summary.oracle_failure(case, &format!("accepted block with golden ticket has {} fee transactions", fee_txs.len()), &desc);
+        if n_fee_txs != 1 {
+            ctx.summary.oracle_failure(case, &format!("accepted block with golden ticket has {} fee transactions", n_fee_txs), &desc);
         }
         if collected_fees(prev) != prev.total_fees {
             ctx.summary.oracle_failure(
@@ -1306,6 +1741,87 @@ async fn run_payout_scenario(ctx: &mut Ctx, rng: &mut Rng, keys: &Keys, cases: &
         ctx.summary.count("payout.outputs", &format!("{}", outputs.len()));
         ctx.summary.count("payout.capped", if (prev.total_fees / 2) as f64 > prev.avg_total_fees as f64 * 1.5 { "capped" } else { "uncapped" });
         ctx.nontrivial(format!("pay/{}", desc));
+        ctx.summary.count("payout.gt_sender", if gt_sender == gt_public_key { "solver" } else { "relay" });
+        if outputs.iter().any(|o| o.2 == 1) && gt_sender != gt_public_key {
+            ctx.summary.count("payout.miner_paid_with_relay", "yes");
+        }
+        if paid_blocks == 2 && outputs.len() == 3 {
+            ctx.summary.count("payout.router2_paid", if (pp.unwrap().total_fees - pp.unwrap().total_fees / 2) == outputs[2].1 { "uncapped" } else { "capped" });
+        }
+        // ---- tampered fee transactions (re-signed clones of this honest block) must be rejected
+        let mut variants: Vec<String> = vec![format!(
+            "({}, {}, true)",
+            gal::list(&outputs.iter().map(|o| format!("({}, {}, {})", o.0, o.1, o.2)).collect::<Vec<_>>()),
+            n_fee_txs
+        )];
+        for kind in 0..FEE_TAMPER.len() {
+            if !rng.chance(2, 3) {
+                continue;
+            }
+            let c = match tampered_clone(&b, kind, keys, &node.sk, &gt_sender) {
+                Some(c) => c,
+                None => continue,
+            };
+            let mut n2 = match replay_node(&params, &chain[..chain.len() - 1]).await {
+                Some(n) => n,
+                None => {
+                    ctx.summary.oracle_failure(case, "vacuity guard: an accepted chain could not be replayed on a fresh node", &desc);
+                    break;
+                }
+            };
+            let cl = n2.add_block(c.clone()).await;
+            let (couts, cn) = fee_outputs(&c, keys);
+            ctx.summary.count("payout.tampered", &format!("{}:{:?}", FEE_TAMPER[kind], cl));
+            if cl == AddClass::OnChain {
+                ctx.summary.oracle_failure(
+                    case,
+                    &format!(
+                        "block {} with a tampered, re-signed fee transaction ({}) was accepted: {} fee transaction(s) paying (key, amount, kind) {:?} instead of {:?}",
+                        c.id, FEE_TAMPER[kind], cn, couts, outputs
+                    ),
+                    &desc,
+                );
+            }
+            variants.push(format!(
+                "({}, {}, {})",
+                gal::list(&couts.iter().map(|o| format!("({}, {}, {})", o.0, o.1, o.2)).collect::<Vec<_>>()),
+                cn,
+                gal::boolean(cl == AddClass::OnChain)
+            ));
+        }
+        // ---- block-level lottery: find_winning_router on the paid block at the boundaries
+        let mut sweep: Vec<String> = vec![];
+        {
+            let mut xs: Vec<u128> = vec![0, 1];
+            for t in &prev.transactions {
+                let c = t.cumulative_fees as u128;
+                xs.extend([c.saturating_sub(1), c, c + 1]);
+            }
+            let f = prev.total_fees as u128;
+            xs.extend([f.saturating_sub(1), f, f + 1, 2 * f + 3]);
+            xs.sort();
+            xs.dedup();
+            let mut hs: Vec<SaitoHash> = xs.iter().map(|x| be32(*x)).collect();
+            hs.push(hash(&rng.next().to_be_bytes()));
+            hs.push([0xff; 32]);
+            let mut elig: BTreeSet<u64> = BTreeSet::new();
+            elig.insert(0);
+            eligible_of(prev, keys, &mut elig);
+            for h in hs {
+                let r = catch_unwind(AssertUnwindSafe(|| prev.find_winning_router(h))).map(|pk| keys.id(&pk)).map_err(|e| panic_site(&panic_msg(e)));
+                match r {
+                    Ok(k) if !elig.contains(&k) => ctx.summary.oracle_failure(
+                        case,
+                        &format!("find_winning_router({}) on block {} returns key#{} which is not on a path (or a path-less sender) of that block", hex::encode(h), prev.id, k),
+                        &desc,
+                    ),
+                    Err(site) => ctx.summary.oracle_failure(case, &format!("find_winning_router({}) panicked (site {})", hex::encode(h), site), &desc),
+                    _ => {}
+                }
+                sweep.push(format!("({}, {}, {})", u256_dec(&h), u256_dec(&hash(h.as_ref())), obs(r)));
+                ctx.summary.count("payout.router_sweep", "points");
+            }
+        }
         // ---- model case
         let (ptxs, atr1) = abs_block_txs(prev, keys);
         let pp_str = match pp {
@@ -1318,11 +1834,11 @@ async fn run_payout_scenario(ctx: &mut Ctx, rng: &mut Rng, keys: &Keys, cases: &
         let atr2 = pp.map(|p| abs_block_txs(p, keys).1).unwrap_or(false);
         if atr1 || atr2 {
             ctx.summary.notes.push("payout scenario hit an ATR transaction; model case skipped".to_string());
-            cases.push("((0, None), [])".to_string());
+            cases.push("(((0, None), []), ((0, 0, 0, 0), [], []))".to_string());
         } else {
             let outs: Vec<String> = outputs.iter().map(|o| format!("({}, {}, {})", o.0, o.1, o.2)).collect();
             cases.push(format!(
-                "(({}, Some (({}, {}, {}), {}, {}, {}, {})), {})",
+                "((({}, Some (({}, {}, {}), {}, {}, {}, {})), {}), (({}, {}, {}, {}), {}, {}))",
                 keys.id(&gt_public_key),
                 prev.total_fees,
                 prev.avg_total_fees,
@@ -1331,7 +1847,13 @@ async fn run_payout_scenario(ctx: &mut Ctx, rng: &mut Rng, keys: &Keys, cases: &
                 u256_dec(&r1),
                 u256_dec(&r1b),
                 pp_str,
-                gal::list(&outs)
+                gal::list(&outs),
+                b.total_payout_mining,
+                b.total_payout_routing,
+                b.total_payout_treasury,
+                b.total_payout_graveyard,
+                gal::list(&variants),
+                gal::list(&sweep)
             ));
         }
         if produced == 0 && first_case % 7 == 0 {
@@ -1345,7 +1867,7 @@ async fn run_payout_scenario(ctx: &mut Ctx, rng: &mut Rng, keys: &Keys, cases: &
 
 async fn part3(ctx: &mut Ctx, rng: &mut Rng) {
     let thorough = ctx.args.tier == "thorough";
-    let keys = Keys::new(6);
+    let keys = Keys::new(8);
     // ---------------- gate
     let offset = ctx.next_case();
     let mut cases: Vec<String> = vec![];
@@ -1357,20 +1879,49 @@ async fn part3(ctx: &mut Ctx, rng: &mut Rng) {
                     if hb == 5000 && hops == 3 && !thorough {
                         continue;
                     }
-                    scenarios.push(Scenario { hb, dt, misordered: false, hops, n_tx: 1, variant, path_defect: 0, with_gt: false });
+                    scenarios.push(Scenario { hb, dt, misordered: false, hops, n_tx: 1, variant, path_defect: 0, with_gt: false, pre_dt: None });
                 }
             }
         }
     }
+    // elapsed times at which burn fee / elapsed has a fractional part >= .5 (and some < .5):
+    // work = requirement - 1 must be rejected, work = requirement accepted
+    for &hb in &[100u64, 5000] {
+        let mut up = 0;
+        let mut down = 0;
+        for dt in 3..(2 * hb) {
+            let rem2 = 2 * (50_000_000u64 % dt);
+            if rem2 == dt || rem2 == 0 {
+                continue;
+            }
+            let is_up = rem2 > dt;
+            if (is_up && up >= 6) || (!is_up && down >= 2) {
+                continue;
+            }
+            if (dt * 7 + hb) % 5 != 0 && dt > 20 {
+                continue; // spread over the range
+            }
+            if is_up { up += 1 } else { down += 1 }
+            for &variant in &[-1i64, 0] {
+                scenarios.push(Scenario { hb, dt, misordered: false, hops: 1 + (dt % 2) as usize, n_tx: 1, variant, path_defect: 0, with_gt: false, pre_dt: None });
+            }
+        }
+    }
+    // the same with a parent whose burn fee is not the default (an extra block in between)
+    for &(pd, dt) in &[(50u64, 7u64), (50, 33), (120, 13), (180, 101), (30, 3), (75, 57), (150, 19), (199, 171)] {
+        for &variant in &[-1i64, 0] {
+            scenarios.push(Scenario { hb: 100, dt, misordered: false, hops: 1, n_tx: 1, variant, path_defect: 0, with_gt: false, pre_dt: Some(pd) });
+        }
+    }
     // equal / misordered timestamps: the sentinel
-    scenarios.push(Scenario { hb: 100, dt: 0, misordered: false, hops: 1, n_tx: 1, variant: 0, path_defect: 0, with_gt: false });
-    scenarios.push(Scenario { hb: 100, dt: 0, misordered: true, hops: 1, n_tx: 1, variant: 0, path_defect: 0, with_gt: false });
+    scenarios.push(Scenario { hb: 100, dt: 0, misordered: false, hops: 1, n_tx: 1, variant: 0, path_defect: 0, with_gt: false, pre_dt: None });
+    scenarios.push(Scenario { hb: 100, dt: 0, misordered: true, hops: 1, n_tx: 1, variant: 0, path_defect: 0, with_gt: false, pre_dt: None });
     // path defects: forged / self-hop count as work on this tree; misdirected / broken do not
     for &defect in &[1u8, 2, 3, 4] {
         for &dt in &[10u64, 100, 150] {
             for &hops in &[1usize, 2] {
-                scenarios.push(Scenario { hb: 100, dt, misordered: false, hops, n_tx: 1, variant: 0, path_defect: defect, with_gt: false });
-                scenarios.push(Scenario { hb: 100, dt, misordered: false, hops, n_tx: 2, variant: 5, path_defect: defect, with_gt: false });
+                scenarios.push(Scenario { hb: 100, dt, misordered: false, hops, n_tx: 1, variant: 0, path_defect: defect, with_gt: false, pre_dt: None });
+                scenarios.push(Scenario { hb: 100, dt, misordered: false, hops, n_tx: 2, variant: 5, path_defect: defect, with_gt: false, pre_dt: None });
             }
         }
     }
@@ -1387,6 +1938,7 @@ async fn part3(ctx: &mut Ctx, rng: &mut Rng) {
             variant: *rng.pick(&[-1000i64, -1, -1, 0, 0, 1, 2, 1000]),
             path_defect: if rng.chance(1, 8) { rng.range(1, 4) as u8 } else { 0 },
             with_gt: rng.chance(1, 3),
+            pre_dt: if rng.chance(1, 4) { Some(rng.range(20, 199)) } else { None },
         });
     }
     for (i, sc) in scenarios.iter().enumerate() {
@@ -1395,6 +1947,12 @@ async fn part3(ctx: &mut Ctx, rng: &mut Rng) {
         run_gate_scenario(ctx, rng, sc, &keys, &mut cases, case).await;
         assert_eq!(ctx.summary.case_descs.len(), before + 1);
     }
+    require_min(ctx, offset, "gate.result", "OnChain", 60);
+    require_min(ctx, offset, "gate.result", "Invalid", 60);
+    require_min(ctx, offset, "gate.requirement_fraction", ">=.5", 30);
+    require_min(ctx, offset, "gate.requirement_fraction", "<.5", 30);
+    require_min(ctx, offset, "gate.variant", "-1", 40);
+    require_min(ctx, offset, "gate.variant", "+0", 40);
     let header = format!(
         "From Saito Require Import Base BurnFee Routing.\nDefinition DBG : bool := {}.\nDefinition mk_tx (t : option N * N * list (N * N * bool)) : rtx :=\n  let '(f0, fees, p) := t in mkRtx f0 fees (map (fun h => mkHop (fst (fst h)) (snd (fst h)) (snd h)) p).\nDefinition check (c : (N * list (option N * N * list (N * N * bool)) * N * N * N * N) * (N * bool * bool)) : bool :=\n  let '((creator, txs, bf, ts, prev, hb), (tw, accepted, strict)) := c in\n  (block_total_work creator (map mk_tx txs) =? tw)\n  && match gate_passes DBG tw bf ts prev hb with\n     | Ok g => if strict then Bool.eqb g accepted else implb accepted g\n     | _ => negb accepted\n     end.",
         gal::boolean(ctx.dbg)
@@ -1421,11 +1979,80 @@ async fn part3(ctx: &mut Ctx, rng: &mut Rng) {
         assert_eq!(offset + cases.len(), first + produced);
         assert_eq!(ctx.summary.case_descs.len(), offset + cases.len());
     }
+    require_min(ctx, offset, "payout.gt_sender", "relay", 20);
+    require_min(ctx, offset, "payout.miner_paid_with_relay", "yes", 15);
+    require_min(ctx, offset, "payout.paid_blocks", "2", 20);
+    require_min(ctx, offset, "payout.router2_paid", "uncapped", 5);
+    require_min(ctx, offset, "payout.capped", "capped", 15);
+    require_min(ctx, offset, "payout.capped", "uncapped", 15);
+    require_min(ctx, offset, "payout.stray_fee_tx", "Invalid", 15);
+    require_min(ctx, offset, "payout.router_sweep", "points", 500);
+    for k in FEE_TAMPER.iter() {
+        require_min(ctx, offset, "payout.tampered", &format!("{}:Invalid", k), 15);
+    }
     let header = format!(
-        "From Saito Require Import Base BurnFee Routing.\nDefinition DBG : bool := {}.\nDefinition T := (option N * N * list (N * N * bool))%type.\nDefinition mk_tx (t : T) : rtx :=\n  let '(f0, fees, p) := t in mkRtx f0 fees (map (fun h => mkHop (fst (fst h)) (snd (fst h)) (snd h)) p).\nDefinition mk_btx (c : N * T) : btx := mkBtx (fst c) false None (mk_tx (snd c)).\nDefinition eqb_slip (a b : N * N * N) : bool :=\n  (fst (fst a) =? fst (fst b)) && (snd (fst a) =? snd (fst b)) && (snd a =? snd b).\nDefinition PREV := ((N * N * bool) * list (N * T) * N * N * option (N * list (N * T) * N * N))%type.\nDefinition check (c : (N * option PREV) * list (N * N * N)) : bool :=\n  let '((miner, prev), outs) := c in\n  match prev with\n  | None => eqb_list eqb_slip (po_slips (payout_with_gt miner None)) outs\n  | Some (hd, txs, x, xb, pp) =>\n      let '(fees, avg, hasgt) := hd in\n      match find_winning_router DBG fees (map mk_btx txs) x xb with\n      | Ok r1 =>\n          let ppr := match pp with\n                     | None => Some None\n                     | Some (ppfees, pptxs, y, yb) =>\n                         match find_winning_router DBG ppfees (map mk_btx pptxs) y yb with\n                         | Ok r2 => Some (Some (ppfees, r2))\n                         | _ => None\n                         end\n                     end in\n          match ppr with\n          | Some pp' => eqb_list eqb_slip (po_slips (payout_with_gt miner (Some (mkPrev fees avg hasgt r1 pp')))) outs\n          | None => false\n          end\n      | _ => false\n      end\n  end.",
-        gal::boolean(ctx.dbg)
+        "From Saito Require Import Base BurnFee Routing.\nDefinition DBG : bool := {}.\n{}",
+        gal::boolean(ctx.dbg),
+        r#"Definition T := (option N * N * list (N * N * bool))%type.
+Definition mk_tx (t : T) : rtx :=
+  let '(f0, fees, p) := t in mkRtx f0 fees (map (fun h => mkHop (fst (fst h)) (snd (fst h)) (snd h)) p).
+Definition mk_btx (c : N * T) : btx := mkBtx (fst c) false None (mk_tx (snd c)).
+Definition eqb_slip (a b : N * N * N) : bool :=
+  (fst (fst a) =? fst (fst b)) && (snd (fst a) =? snd (fst b)) && (snd a =? snd b).
+Definition PREV := ((N * N * bool) * list (N * T) * N * N * option (N * list (N * T) * N * N))%type.
+(* the payout the model expects, None if the model's lottery panics *)
+Definition model_payout (miner : N) (prev : option PREV) : option payout :=
+  match prev with
+  | None => Some (payout_with_gt miner None)
+  | Some (hd, txs, x, xb, pp) =>
+      let '(fees, avg, hasgt) := hd in
+      match find_winning_router DBG fees (map mk_btx txs) x xb with
+      | Ok r1 =>
+          let ppr := match pp with
+                     | None => Some None
+                     | Some (ppfees, pptxs, y, yb) =>
+                         match find_winning_router DBG ppfees (map mk_btx pptxs) y yb with
+                         | Ok r2 => Some (Some (ppfees, r2))
+                         | _ => None
+                         end
+                     end in
+          match ppr with
+          | Some pp' => Some (payout_with_gt miner (Some (mkPrev fees avg hasgt r1 pp')))
+          | None => None
+          end
+      | _ => None
+      end
+  end.
+Definition check (c : ((N * option PREV) * list (N * N * N)) * ((N * N * N * N) * list (list (N * N * N) * N * bool) * list (N * N * N))) : bool :=
+  let '(((miner, prev), outs), (hdr, variants, sweep)) := c in
+  match model_payout miner prev with
+  | None => false
+  | Some p =>
+      let '(m, r, t, g) := hdr in
+      (* the honest block's fee transaction and header payout fields *)
+      eqb_list eqb_slip (po_slips p) outs
+      && (po_mining p =? m) && (po_routing p =? r) && (po_treasury p =? t) && (po_graveyard p =? g)
+      (* a block is accepted only with exactly one fee transaction equal to the expected one *)
+      && forallb (fun v => let '(vouts, nfee, accepted) := v in
+                           implb accepted ((nfee =? 1) && eqb_list eqb_slip (po_slips p) vouts)) variants
+      (* block-level lottery at the boundaries *)
+      && match prev with
+         | None => true
+         | Some (hd, txs, _, _, _) =>
+             forallb (fun s => let '(x, x2, e) := s in
+                               obs_res (find_winning_router DBG (fst (fst hd)) (map mk_btx txs) x x2) =? e) sweep
+         end
+  end."#
     );
-    let files = write_shards_off(&dir, "pay", &header, "(N * option PREV) * list (N * N * N)", &cases, ctx.args.shards, offset);
+    let files = write_shards_off(
+        &dir,
+        "pay",
+        &header,
+        "((N * option PREV) * list (N * N * N)) * ((N * N * N * N) * list (list (N * N * N) * N * bool) * list (N * N * N))",
+        &cases,
+        ctx.args.shards,
+        offset,
+    );
     ctx.files.extend(files);
 }
 
@@ -1517,14 +2144,20 @@ fn oracle_ticket(ctx: &mut Ctx, case: usize, b: &Block, parent: &Block, keys: &K
     }
 }
 
-const GT_KINDS: [&str; 6] = [
+const GT_KINDS: [&str; 10] = [
     "for-parent",
     "for-grandparent",
     "for-sibling-fork-block",
     "for-random-hash",
     "for-parent-below-difficulty",
     "foreign-target-field-but-solves-parent",
+    "for-parent-exactly-at-difficulty",
+    "for-parent-one-leading-zero-short",
+    "zero-key-ticket",
+    "unpaid-carry-over-with-ticket",
 ];
+/// kinds whose candidate must be accepted
+const GT_ACCEPT: [usize; 3] = [0, 5, 6];
 
 async fn run_ticket_scenario(ctx: &mut Ctx, rng: &mut Rng, keys: &Keys, kind: usize, n_gt: usize, cases: &mut Vec<String>, case: usize) {
     let hb = 100u64;
@@ -1533,8 +2166,12 @@ async fn run_ticket_scenario(ctx: &mut Ctx, rng: &mut Rng, keys: &Keys, kind: us
     let creator = 0usize;
     let sender = 1usize;
     let fail = |ctx: &mut Ctx, cases: &mut Vec<String>, why: String| {
-        ctx.summary.notes.push(format!("ticket scenario not built: {}", why));
-        cases.push("((0, 0), true, 0, [])".to_string());
+        ctx.summary.oracle_failure(
+            case,
+            &format!("vacuity guard: golden-ticket scenario {} (chain of {} ticket blocks) could not be built: {}", GT_KINDS[kind], n_gt, why),
+            "{\"part\":\"ticket\",\"setup\":\"failed\"}",
+        );
+        cases.push("((0, 0), 1, 0, true, 0, [])".to_string());
         ctx.summary.case_descs.push("{\"part\":\"ticket\",\"setup\":\"failed\"}".to_string());
     };
     let iss: Vec<(SaitoPublicKey, u64)> = (0..4).map(|_| (keys.v[sender].0, 400_000_000_000u64)).collect();
@@ -1554,6 +2191,7 @@ async fn run_ticket_scenario(ctx: &mut Ctx, rng: &mut Rng, keys: &Keys, kind: us
         if node.add_block(b.clone()).await != AddClass::OnChain {
             return fail(ctx, cases, format!("chain block {} rejected", b.id));
         }
+        oracle_block_meta(ctx, case, &b, &tip, "{\"part\":\"ticket\",\"check\":\"block bookkeeping\"}");
         tip = b;
     }
     let grandparent = tip.clone();
@@ -1572,13 +2210,15 @@ async fn run_ticket_scenario(ctx: &mut Ctx, rng: &mut Rng, keys: &Keys, kind: us
         return fail(ctx, cases, "parent rejected".to_string());
     }
     let d = parent.difficulty;
-    let (miner_pk, miner_sk) = keys.v[4];
+    // the key the solution names, and the relay that sends the golden-ticket transaction
+    let miner_pk: SaitoPublicKey = if kind == 8 { [0; 33] } else { keys.v[4].0 };
+    let (relay_pk, relay_sk) = if kind == 8 || case % 2 == 1 { keys.v[5] } else { keys.v[4] };
     let random_target = hash(&rng.next().to_be_bytes());
     let target: SaitoHash = match kind {
-        0 | 4 => parent.hash,
         1 | 5 => grandparent.hash,
         2 => sibling.hash,
-        _ => random_target,
+        3 => random_target,
+        _ => parent.hash,
     };
     // search the ticket's random
     let mut random = hash(&(case as u64 ^ rng.next()).to_be_bytes());
@@ -1591,6 +2231,8 @@ async fn run_ticket_scenario(ctx: &mut Ctx, rng: &mut Rng, keys: &Keys, kind: us
             // internally consistent tickets (they solve *their* target at the parent's difficulty) that do not solve the parent
             1 | 2 | 3 => lz_target >= d && lz_parent < d,
             4 => lz_parent < d,
+            6 => lz_parent == d,
+            7 => lz_parent + 1 == d,
             _ => lz_parent >= d,
         };
         if ok {
@@ -1603,12 +2245,18 @@ async fn run_ticket_scenario(ctx: &mut Ctx, rng: &mut Rng, keys: &Keys, kind: us
         return fail(ctx, cases, format!("no ticket found for kind {} at difficulty {}", kind, d));
     }
     let ticket = GoldenTicket::create(target, random, miner_pk);
-    let gttx = Wallet::create_golden_ticket_transaction(ticket, &miner_pk, &miner_sk).await;
+    let gttx = Wallet::create_golden_ticket_transaction(ticket, &relay_pk, &relay_sk).await;
     let ts_c = parent.timestamp + 2 * hb + 5 + rng.below(30);
-    let cand = match make_block_with_gttx(&node, parent.hash, ts_c, vec![], gttx).await {
+    let mut cand = match make_block_with_gttx(&node, parent.hash, ts_c, vec![], gttx).await {
         Ok(b) => b,
         Err(e) => return fail(ctx, cases, e),
     };
+    if kind == 9 {
+        // a block with a golden ticket that still claims the parent's fees as unpaid (re-signed)
+        cand.previous_block_unpaid = parent.total_fees;
+        reseal(&mut cand, &node.sk);
+    }
+    let unpaid = cand.previous_block_unpaid;
     let class = node.add_block(cand.clone()).await;
     let accepted = class == AddClass::OnChain;
     let lz_parent = solution_lz(&parent.hash, &random, &miner_pk) as u64;
@@ -1622,13 +2270,19 @@ async fn run_ticket_scenario(ctx: &mut Ctx, rng: &mut Rng, keys: &Keys, kind: us
         .map(|s| (keys.id(&s.public_key), s.amount))
         .collect();
     let desc = format!(
-        "{{\"part\":\"ticket\",\"kind\":{},\"parent_id\":{},\"parent_difficulty\":{},\"parent_total_fees\":{},\"ticket_target_is_parent\":{},\"solution_leading_zeros_vs_ticket_target\":{},\"solution_leading_zeros_vs_parent_hash\":{},\"ticket_key\":{},\"miner_outputs_key_amount\":{:?},\"add_block\":{}}}",
-        jstr(GT_KINDS[kind]), parent.id, d, parent.total_fees, target == parent.hash, lz_target, lz_parent, keys.id(&miner_pk),
+        "{{\"part\":\"ticket\",\"kind\":{},\"parent_id\":{},\"parent_difficulty\":{},\"parent_total_fees\":{},\"ticket_target_is_parent\":{},\"solution_leading_zeros_vs_ticket_target\":{},\"solution_leading_zeros_vs_parent_hash\":{},\"ticket_key\":{},\"gt_transaction_sender_key\":{},\"previous_block_unpaid\":{},\"miner_outputs_key_amount\":{:?},\"add_block\":{}}}",
+        jstr(GT_KINDS[kind]), parent.id, d, parent.total_fees, target == parent.hash, lz_target, lz_parent, keys.id(&miner_pk), keys.id(&relay_pk), unpaid,
         miner_outputs.iter().map(|o| vec![o.0, o.1]).collect::<Vec<_>>(), jstr(&format!("{:?}", class))
     );
     if accepted {
         oracle_ticket(ctx, case, &cand, &parent, keys, &desc);
-    } else if lz_parent >= d && class != AddClass::Panicked {
+        if keys.id(&miner_pk) == 0 {
+            ctx.summary.oracle_failure(case, "accepted block whose golden ticket names the all-zero key: the miner share of the parent's fees is paid to nobody", &desc);
+        }
+        if unpaid != 0 {
+            ctx.summary.oracle_failure(case, &format!("accepted block with a golden ticket that still carries previous_block_unpaid = {}", unpaid), &desc);
+        }
+    } else if GT_ACCEPT.contains(&kind) && class != AddClass::Panicked {
         ctx.summary.oracle_failure(
             case,
             &format!("block whose golden ticket solves the parent's lottery ({} leading zeros, difficulty {}) was not accepted ({:?})", lz_parent, d, class),
@@ -1640,9 +2294,11 @@ async fn run_ticket_scenario(ctx: &mut Ctx, rng: &mut Rng, keys: &Keys, kind: us
     ctx.summary.count("ticket.result", &format!("{}:{:?}", GT_KINDS[kind], class));
     ctx.nontrivial(format!("ticket/{}", desc));
     cases.push(format!(
-        "(({}, {}), {}, {}, {})",
+        "(({}, {}), {}, {}, {}, {}, {})",
         lz_parent,
         d,
+        keys.id(&miner_pk),
+        unpaid,
         gal::boolean(accepted),
         keys.id(&miner_pk),
         gal::nlist(&miner_outputs.iter().map(|o| o.0).collect::<Vec<_>>())
@@ -1669,9 +2325,18 @@ async fn part4(ctx: &mut Ctx, rng: &mut Rng) {
             }
         }
     }
-    let header = "From Saito Require Import Base BurnFee Routing.\nDefinition check (c : (N * N) * bool * N * list N) : bool :=\n  let '((lz, d), accepted, miner, miner_outs) := c in\n  Bool.eqb (golden_ticket_solves lz d) accepted && forallb (fun k => k =? miner) miner_outs.".to_string();
+    // vacuity guards: every kind reached add_block, with the verdict it must have on an honest tree,
+    // at difficulties high enough to tell a solution from a non-solution
+    for (k, name) in GT_KINDS.iter().enumerate() {
+        let want = if GT_ACCEPT.contains(&k) { "OnChain" } else { "Invalid" };
+        require_min(ctx, offset, "ticket.result", &format!("{}:{}", name, want), reps as u64 * 4);
+    }
+    for dd in [4u64, 6, 8] {
+        require_min(ctx, offset, "ticket.difficulty", &format!("{}", dd), 4);
+    }
+    let header = "From Saito Require Import Base BurnFee Routing.\nDefinition check (c : (N * N) * N * N * bool * N * list N) : bool :=\n  let '((lz, d), key, unpaid, accepted, miner, miner_outs) := c in\n  Bool.eqb (golden_ticket_section_ok key unpaid lz d) accepted && forallb (fun k => k =? miner) miner_outs.".to_string();
     let dir = format!("{}/cases", ctx.args.out);
-    let files = write_shards_off(&dir, "ticket", &header, "(N * N) * bool * N * list N", &cases, 4, offset);
+    let files = write_shards_off(&dir, "ticket", &header, "(N * N) * N * N * bool * N * list N", &cases, 4, offset);
     ctx.files.extend(files);
 }
 
@@ -1691,6 +2356,9 @@ fn main() {
     }
     if only.is_empty() || only.contains('2') {
         part2(&mut ctx, &mut rng.fork());
+    }
+    if only.is_empty() || only.contains('5') {
+        part2b(&mut ctx, &mut rng.fork());
     }
     if only.is_empty() || only.contains('3') {
         let rt = tokio::runtime::Builder::new_current_thread().enable_all().build().unwrap();
